@@ -66,5 +66,5 @@ ObsProps ==
   /\ Chk("C12_InvalidRejected", C12_InvalidRejected) /\ Chk("C16_DamagedRejected", C16_DamagedRejected)
   /\ Chk("C17_ContradictionReported", C17_ContradictionReported) /\ Chk("C17_HistoryKept", C17_HistoryKept) /\ Chk("C17_OthersUnaffected", C17_OthersUnaffected)
   /\ Chk("C18_Twin", T_C18_Twin)
-  /\ Chk("C20_StatusTruth", C20_StatusTruth)
+  /\ Chk("C20_StatusTruth", C20_StatusTruth) /\ Chk("C20_FailuresOnce", C20_FailuresOnce)
 =============================================================================
